@@ -1056,7 +1056,7 @@ def describe_params(
 def describe_sql_result(
     *,
     schema: s_schema.Schema,
-    row: dict[str, s_types.Type],
+    row: Mapping[str, s_types.Type] | Sequence[tuple[str, s_types.Type]],
     protocol_version: edbdef.ProtocolVersion,
 ) -> tuple[bytes, uuid.UUID]:
     ctx = Context(
@@ -1064,12 +1064,17 @@ def describe_sql_result(
         protocol_version=protocol_version,
     )
 
+    # A row may have several columns of the same name, e.g. for
+    # `select 1 as a, 2 as a`:
+    # the columns are a sequence, not a mapping.
+    columns = list(row.items() if isinstance(row, Mapping) else row)
+
     params_buf = []
 
     subtypes = []
     element_names = []
 
-    for rel_name, rel_t in row.items():
+    for rel_name, rel_t in columns:
         rel_type_id = _describe_type(rel_t, ctx=ctx)
         # SQLRecordElement.name
         params_buf.append(_string_packer(rel_name))
@@ -1086,7 +1091,7 @@ def describe_sql_result(
     ]
 
     record_body_bytes.extend([
-        _uint16_packer(len(row)),
+        _uint16_packer(len(columns)),
         *params_buf,
     ])
 
